@@ -28,6 +28,8 @@ def plan(tier, seed):
             dict(space="k3", lexmap="M0", layout="ws", alpha="ab ", nmax=4),
             dict(space="k3", lexmap="M0", layout="LAYOUT", alpha="ab ", nmax=3),
             dict(space="k3", lexmap="M3", layout="ws", alpha="ab ", nmax=3),
+            dict(space="k3", lexmap="M5", layout="ws", alpha="ab ", nmax=4,
+                 win=(seed, 2)),
             dict(space="k4only", win=(seed, 40), lexmap="M0", layout="ws",
                  alpha="ab ", nmax=4),
         ]
@@ -35,6 +37,7 @@ def plan(tier, seed):
         dict(space="k3", lexmap="M0", layout="ws", alpha="ab ", nmax=5),
         dict(space="k3", lexmap="M0", layout="LAYOUT", alpha="ab ", nmax=4),
         dict(space="k3", lexmap="M3", layout="ws", alpha="ab ", nmax=4),
+        dict(space="k3", lexmap="M5", layout="ws", alpha="ab ", nmax=5),
         dict(space="k4only", lexmap="M0", layout="ws", alpha="ab ", nmax=4),
         dict(space="k4only", lexmap="M0", layout="LAYOUT", alpha="ab ", nmax=3),
     ]
